@@ -91,6 +91,9 @@ def episodes(prop, tier, seed):
             out["reload-release"] = (g.c15_episodes(seed + 1), "release")
     if prop != "C11":
         out = {k: (g.without_known_space(eps), prof) for k, (eps, prof) in out.items()}
+    out = {k: (g.without_known_hangs(eps), prof) for k, (eps, prof) in out.items()}
+    if prop == "C07" and not q:
+        out["mwhc-tiny"] = (g.mwhc_tiny(), "verif")
     return out
 
 
